@@ -79,9 +79,21 @@ Init ==
     /\ hist = <<>>
 
 HeadNum == w.ch.blk[w.ch.head].num
-AtHead(k) == SyncStep(w.ch, w.kp[k + 1].sy) = w.kp[k + 1].sy
+(* nothing to sync: Sync(head) returns without touching the database iff the position is not below
+   the head's number (also when the head is a sibling of the synced block: ASSUME'd by SyncIdle) *)
+AtHead(k) == w.kp[k + 1].sy.synced.num >= HeadNum
+SyncIdle == \A k \in KeyperIdx : AtHead(k) <=> SyncStep(w.ch, w.kp[k + 1].sy) = w.kp[k + 1].sy
 EagerDone == \A k \in KeyperIdx \ Laggards : AtHead(k)
 SyncedNum(k) == w.kp[k + 1].sy.synced.num
+
+(* compact form of an action in the printed history: <<a, n, g>> or, with a message,
+   <<a, n, t, from, slot, p, ids, signers>> with a slot identity written -slot, a transaction
+   identity by its rank (every share / signature / key of a model message is genuine) *)
+Enc(a) ==
+    IF a.m.t = "-" THEN <<a.a, a.n, a.g>>
+    ELSE <<a.a, a.n, a.m.t, a.m.from, a.m.c.slot, a.m.c.p,
+           [i \in DOMAIN a.m.c.ids |-> IF a.m.c.ids[i].k = "slot" THEN 0 - a.m.c.ids[i].r ELSE a.m.c.ids[i].r],
+           a.m.signers>>
 
 (* the step a, with the packet pk taken out of the network (NoPk: none) *)
 NoPk == [m |-> NoM, d |-> 0]
@@ -93,7 +105,7 @@ Do(a, pk) ==
     /\ net' = (IF pk = NoPk THEN net ELSE net (-) SetToBag({pk})) (+) p.pk
     /\ gw' = GhostNextE(gw, w, a, x.o, p.prod, x.w, hash)
     /\ obs' = [a |-> a, o |-> x.o, prod |-> p.prod]
-    /\ hist' = Append(hist, a)
+    /\ hist' = Append(hist, Enc(a))
 
 (* the policy's choice among the packets in flight *)
 SignersCode(q) == IF Len(q) = 0 THEN 0 ELSE FoldLeft(LAMBDA acc, x : acc * (NK + 1) + x + 1, 0, q)
